@@ -155,8 +155,8 @@ func (g *Gen) inputRaw(n *Node) IVal {
 	case KFloat64, KFloat32:
 		c := r.Intn(100)
 		switch {
-		case c < 6:
-			return f64V(Pick(r, []float64{math.NaN(), math.Inf(1), math.Inf(-1)}))
+		case c < g.P.PSpecialFloat:
+			return f64V(Pick(r, []float64{math.NaN(), math.NaN(), math.Inf(1), math.Inf(-1)}))
 		case c < 40:
 			return f64V(Pick(r, []float64{0, 1, 2.5, 3.25, 10, -1, 0.1, 1e300, -1e300, 3.4028235e38, 3.5e38, math.NaN(), math.Inf(-1), 16777217}))
 		case c < 55:
@@ -358,8 +358,8 @@ func (g *Gen) destRaw(n *Node, t reflect.Type, populated bool) reflect.Value {
 	case KFloat32, KFloat64:
 		if !zero {
 			x := Pick(r, []float64{1, 2.5, 3.25, 10, -1, 0.5})
-			if r.P(10) {
-				x = Pick(r, []float64{math.NaN(), math.Inf(1), math.Inf(-1), 1e300, -1e300, 5e-324})
+			if r.P(g.P.PSpecialFloat + 4) {
+				x = Pick(r, []float64{math.NaN(), math.NaN(), math.Inf(1), math.Inf(-1), 1e300, -1e300, 5e-324})
 			}
 			v.SetFloat(x)
 		}
